@@ -862,7 +862,7 @@ func (g *Gen) indexAddr(x *ssa.IndexAddr) Val {
 	switch bt := x.X.Type().Underlying().(type) {
 	case *types.Slice:
 		g.safe("index "+g.E.srcText(x), fmt.Sprintf("(and %s %s)", g.le(g.idxLit(0), idx), g.lt(idx, "(sl.len "+base.S+")")), x.Pos())
-		return Val{T: x.Type(), S: "1", Addr: &Addr{Kind: "elem", Heap: g.arrHeap(bt.Elem()), Base: "(sl.ref " + base.S + ")", Idx: g.define("ix", g.idxSort(), g.add("(sl.off "+base.S+")", idx)), ElemT: bt.Elem()}}
+		return Val{T: x.Type(), S: "1", Addr: &Addr{Kind: "elem", Heap: g.arrHeap(bt.Elem()), Base: "(sl.ref " + base.S + ")", Idx: g.define("ix", g.idxSort(), g.add("(sl.off "+base.S+")", idx)), Off: "(sl.off " + base.S + ")", I: idx, ElemT: bt.Elem(), ElemRootT: bt.Elem()}}
 	case *types.Pointer:
 		arr := bt.Elem().Underlying().(*types.Array)
 		g.safe("index "+g.E.srcText(x), fmt.Sprintf("(and %s %s)", g.le(g.idxLit(0), idx), g.lt(idx, g.idxLit(arr.Len()))), x.Pos())
